@@ -15,7 +15,7 @@ PLANNED = ["C01", "C02", "C03", "C06", "C10", "C11", "C12", "C13", "C14", "C15",
 C18TXT = ("PARTIAL. Decided, on simulated state only: Hedger(BlackScholes(d)) and Hedger(WhalleyWilmott(d)) for the four option kinds run to the end of "
           "simulated time give finite hedges and P&L - in ordinary markets, flat markets (sigma = 0), after shocks pushing |log-moneyness| large, with "
           "dt from 1/365 to 0.25 and cost zero/positive (F9); derivative-bound module.price()/delta() over the full simulated state are NaN-free; at "
-          "the maturity column (and at every column of a flat market) the price equals the payoff that is then certain; P&L with a listed, "
+          "the maturity column (and at every column of a flat market) the price equals the payoff that is then certain, and wherever time to maturity or volatility is zero off the payoff kinks the delta equals its limiting value; P&L with a listed, "
           "Black-Scholes-priced hedging instrument is finite. A non-finite hedger result is attributed to the first pricing-module method that is "
           "non-finite on that state and to the market condition there (zero volatility / zero time / far from strike). NOT decided: stand-alone "
           "function clauses not reached by simulated state (limit of every delta at arbitrary arguments, rejection of negative arguments).")
